@@ -738,6 +738,107 @@ theorem pickNext_exact {delay lim : Nat} (fuel : Nat) (st st' : St σ) (e : SimE
             subst he; subst hst
             exact ⟨rfl, rfl, rfl, rfl, rfl, qid, hpop, m3⟩
 
+/-! ### the parsed trace as a sequence of pushes -/
+
+/-- the base event `parse_trace` queues for a line -/
+def nsOf (delay : Nat) (l : TraceLine) : SimEvent :=
+  if l.2 then ⟨.normalSent, (l.1 : Int), true, false, false, false⟩
+  else ⟨.normalSent, (l.1 : Int) - delay, false, false, false, false⟩
+
+theorem parseTrace_sides (trace : List TraceLine) (delay : Nat) :
+    (parseTrace trace delay).client = (pushAll SimQueue.empty (trace.map (nsOf delay))).client ∧
+    (parseTrace trace delay).server = (pushAll SimQueue.empty (trace.map (nsOf delay))).server := by
+  have key : ∀ (tr : List TraceLine) (acc : ParseAcc),
+      (tr.foldl (fun (acc : ParseAcc) (l : TraceLine) =>
+        let ts : Int := l.1
+        if l.2 then
+          let sq := acc.sq.pushSim ⟨.normalSent, ts, true, false, false, false⟩
+          let (m, w) := acc.sentW.add ts
+          { acc with sq := sq, sentW := w, sentMax := if m > acc.sentMax then m else acc.sentMax }
+        else
+          let sq := acc.sq.pushSim ⟨.normalSent, ts - delay, false, false, false, false⟩
+          let (m, w) := acc.recvW.add ts
+          { acc with sq := sq, recvW := w, recvMax := if m > acc.recvMax then m else acc.recvMax }) acc).sq = pushAll acc.sq (tr.map (nsOf delay)) := by
+    intro tr
+    induction tr with
+    | nil => intro acc; rfl
+    | cons l ls ih =>
+      intro acc
+      simp only [List.foldl_cons, List.map_cons]
+      rw [ih]
+      show _ = pushAll (acc.sq.pushSim (nsOf delay l)) _
+      congr 1
+      unfold nsOf
+      by_cases hl : l.2 = true
+      · simp only [hl, if_true]
+      · have hl' : l.2 = false := by simpa using hl
+        simp only [hl', Bool.false_eq_true, if_false]
+  have := key trace ⟨SimQueue.empty, ⟨Gen.SIM_PARSE_WINDOW_NS, []⟩, ⟨Gen.SIM_PARSE_WINDOW_NS, []⟩, 0, 0⟩
+  unfold parseTrace
+  simp only []
+  simp only [] at this
+  rw [this]
+  exact ⟨rfl, rfl⟩
+
+theorem pushAll_heap_other : ∀ (l : List SimEvent) (sq : SimQueue) (c : Bool) (qi : Queue),
+    (∀ e ∈ l, route e = .base) → qi ≠ .base → ((pushAll sq l).side c).heap qi = (sq.side c).heap qi := by
+  intro l
+  induction l with
+  | nil => intro sq c qi _ _; rfl
+  | cons a r ih =>
+    intro sq c qi hl hq
+    show ((pushAll (sq.pushSim a) r).side c).heap qi = _
+    rw [ih _ c qi (fun e he => hl e (by simp [he])) hq, SimQueue.pushSim_heap]
+    have := hl a (by simp)
+    rw [this]
+    simp [hq]
+
+/-- the first base time is the time of a queued event and not later than any queued event, when
+    only the base heaps hold events -/
+theorem firstTime_min {s : SimQueue} {t0 : Int} (ho : s.Ord)
+    (hemp : ∀ c qi, qi ≠ .base → ((s.side c).heap qi).data = []) (h : s.firstTime = some t0) :
+    (s.AllE fun e => t0 ≤ e.time) ∧ ∃ c r, r ∈ ((s.side c).heap .base).data ∧ r.time = t0 := by
+  have hside : ∀ c r, ((s.side c).heap .base).peek = some r → ∀ y ∈ ((s.side c).heap .base).data, r.time ≤ y.time := by
+    intro c r hr y hy
+    exact SimEvent.le_time (heap_root_max simEvent_totalPre (ho c .base) y hy r hr)
+  have hc : s.client.base = (s.side true).heap .base := rfl
+  have hs : s.server.base = (s.side false).heap .base := rfl
+  unfold SimQueue.firstTime EventQueue.firstBaseTime at h
+  rw [hc, hs] at h
+  have hall : ∀ (tc ts : Option Int), (∀ r, ((s.side true).heap .base).peek = some r → tc = some r.time) →
+      (∀ r, ((s.side false).heap .base).peek = some r → ts = some r.time) →
+      (∀ x, tc = some x → t0 ≤ x) → (∀ x, ts = some x → t0 ≤ x) → s.AllE fun e => t0 ≤ e.time := by
+    intro tc ts h1 h2 h3 h4 c qi e he
+    by_cases hq : qi = .base
+    · subst hq
+      cases hd : ((s.side c).heap .base).data with
+      | nil => rw [hd] at he; cases he
+      | cons r rest =>
+        have hpr : ((s.side c).heap .base).peek = some r := by simp [Heap.peek, hd]
+        have := hside c r hpr e he
+        cases c
+        · have := h4 _ (h2 r hpr); omega
+        · have := h3 _ (h1 r hpr); omega
+    · rw [hemp c qi hq] at he; cases he
+  cases hpc : ((s.side true).heap .base).peek with
+  | none =>
+    cases hps : ((s.side false).heap .base).peek with
+    | none => simp [hpc, hps] at h
+    | some rs =>
+      simp only [hpc, hps, Option.map_none, Option.map_some, Option.some.injEq] at h
+      refine ⟨hall none (some rs.time) (by simp [hpc]) (by simp [hps]) (by simp) (by simp; omega), false, rs, Heap.peek_mem hps, h⟩
+  | some rc =>
+    cases hps : ((s.side false).heap .base).peek with
+    | none =>
+      simp only [hpc, hps, Option.map_none, Option.map_some, Option.some.injEq] at h
+      refine ⟨hall (some rc.time) none (by simp [hpc]) (by simp [hps]) (by simp; omega) (by simp), true, rc, Heap.peek_mem hpc, h⟩
+    | some rs =>
+      simp only [hpc, hps, Option.map_some, Option.some.injEq] at h
+      refine ⟨hall (some rc.time) (some rs.time) (by simp [hpc]) (by simp [hps]) (by simp; omega) (by simp; omega), ?_⟩
+      by_cases hle : rc.time ≤ rs.time
+      · exact ⟨true, rc, Heap.peek_mem hpc, by omega⟩
+      · exact ⟨false, rs, Heap.peek_mem hps, by omega⟩
+
 /-! ### the invariant of an exact run and its preservation -/
 
 /-- the latest time an event or its descendants reach: packets still to cross the network
@@ -954,6 +1055,167 @@ theorem step_exact {delay lim : Nat} {L : Bool → List Int} {B : Int}
             rw [hsp2] at hc
             simp only [b2n, Bool.false_eq_true, if_false] at hc
             omega
+
+/-- **The main loop of an exact run**: for every pair of event predicates `P` (what is counted in
+    the queues) and `Q` (what is counted in the stream) such that processing a plain packet `e`
+    moves `P`-weight from `e` to its successor except for the `Q` events, which consume it, the
+    `P`-count of the initial queues is the `P`-count of the final queues plus the `Q`-count of the
+    stream. -/
+theorem loop_exact {delay lim : Nat} {L : Bool → List Int} {B : Int}
+    (hstat : ∀ c t, t ∈ L c →
+      (L c).countP (fun x => decide (x ≤ t) && inWin Gen.SIM_BOTTLENECK_WINDOW_NS t x) ≤ lim)
+    (args : Args) (P Q : SimEvent → Bool)
+    (hPQ : ∀ e, pktOK e = true → (succL delay e).countP P + b2n (Q e) = b2n (P e)) :
+    ∀ (fuel : Nat) (st : St σ) (iters cnt : Nat), XInv delay lim L B st →
+      ∀ stf, (loop ρ args fuel st iters cnt).final = some stf →
+        XInv delay lim L B stf ∧
+        tcount P st.sq = tcount P stf.sq + (loop ρ args fuel st iters cnt).stream.countP (fun r => Q r.ev) := by
+  intro fuel
+  induction fuel with
+  | zero =>
+    intro st iters cnt hx stf h
+    simp only [loop] at h ⊢
+    cases h; exact ⟨hx, by simp⟩
+  | succ n ih =>
+    intro st iters cnt hx stf h
+    cases hs : step ρ st with
+    | error f => simp only [loop, hs] at h; cases h
+    | ok o =>
+      cases o with
+      | none =>
+        simp only [loop, hs] at h ⊢
+        cases h; exact ⟨hx, by simp⟩
+      | some pr =>
+        obtain ⟨r, st'⟩ := pr
+        obtain ⟨hx', hok, hc⟩ := step_exact ρ hstat hx hs
+        have h1 := hc P
+        have h2 := hPQ r.ev hok
+        have hkey : tcount P st.sq = tcount P st'.sq + (if Q r.ev = true then 1 else 0) := by
+          unfold b2n at h1 h2; omega
+        rw [loop_succ_some ρ args n st st' iters cnt r hs] at h ⊢
+        cases hstop : stopCheck args st' iters (bump args r cnt) with
+        | some s =>
+          simp only [hstop] at h ⊢
+          cases h
+          refine ⟨hx', ?_⟩
+          simp only [List.countP_cons, List.countP_nil]
+          omega
+        | none =>
+          simp only [hstop] at h ⊢
+          obtain ⟨i1, i2⟩ := ih st' (iters + 1) (bump args r cnt) hx' stf h
+          refine ⟨i1, ?_⟩
+          simp only [List.countP_cons]
+          omega
+
+/-! ### the initial state -/
+
+/-- the send times of a side: the client sends at its `s` times, the server one network delay
+    before the client's `r` times -/
+def Lof (trace : List TraceLine) (delay : Nat) (c : Bool) : List Int :=
+  if c then sTimes trace else (rTimes trace).map (· - (delay : Int))
+
+theorem init_budget (delay : Nat) (c : Bool) (p : Int → Bool) : ∀ (trace : List TraceLine),
+    (trace.map (nsOf delay)).countP (sendPend c p) = (Lof trace delay c).countP p := by
+  intro trace
+  induction trace with
+  | nil => cases c <;> rfl
+  | cons l ls ih =>
+    rw [List.map_cons, List.countP_cons, ih]
+    cases c <;> cases hl : l.2 <;>
+      simp [Lof, sTimes, rTimes, List.filter_cons, hl, nsOf, sendPend, isNS, isTS, List.countP_cons]
+
+theorem tcount_congr (P : SimEvent → Bool) {a b : SimQueue} (h1 : a.client = b.client) (h2 : a.server = b.server) :
+    tcount P a = tcount P b := by
+  unfold tcount; rw [h1, h2]
+
+theorem side_congr {a b : SimQueue} (h1 : a.client = b.client) (h2 : a.server = b.server) (c : Bool) :
+    a.side c = b.side c := by
+  unfold SimQueue.side; cases c <;> simp [h1, h2]
+
+theorem empty_ord : SimQueue.empty.Ord := by
+  intro c qi
+  cases c <;> cases qi <;> exact heapInv_empty _
+
+theorem tcount_empty (P : SimEvent → Bool) : tcount P SimQueue.empty = 0 := rfl
+
+/-- the initial state of a run without machines on a parsed trace satisfies the invariant -/
+theorem initState_xinv {trace : List TraceLine} {delay lim : Nat} {a : Args} {orc : σ} {st : St σ}
+    (hnet : a.network = ⟨delay, none⟩) (hlim : (parseTrace trace delay).maxPps = some lim)
+    (hB : ∀ l ∈ trace, ((l.1 : Nat) : Int) + 2 * (delay : Int) ≤ durMax)
+    (h : initState ρ [] [] (parseTrace trace delay) a orc = .ok st) :
+    XInv delay lim (Lof trace delay) (st.now + durMax) st ∧ st.sq = parseTrace trace delay ∧
+    (parseTrace trace delay).firstTime = some st.now := by
+  have hnm := initState_nomach ρ h
+  have hsq := initState_sq ρ h
+  obtain ⟨hs1, hs2⟩ := parseTrace_sides trace delay
+  have hside := side_congr hs1 hs2
+  let evs := trace.map (nsOf delay)
+  have hroute : ∀ e ∈ evs, route e = .base := by
+    intro e he
+    simp only [evs, List.mem_map] at he
+    obtain ⟨l, _, hl⟩ := he
+    subst hl
+    unfold nsOf route; cases l.2 <;> rfl
+  -- heap order, emptiness of the other heaps, bounds of the queued events
+  have hord : (parseTrace trace delay).Ord := by
+    intro c qi; rw [hside]; exact pushAll_ord _ _ empty_ord c qi
+  have hemp : ∀ c qi, qi ≠ .base → (((parseTrace trace delay).side c).heap qi).data = [] := by
+    intro c qi hq
+    rw [hside, pushAll_heap_other _ _ c qi hroute hq]
+    cases c <;> cases qi <;> first | rfl | exact absurd rfl hq
+  have hrange : (parseTrace trace delay).AllE fun e => -(delay : Int) ≤ e.time ∧ e.time + 2 * (delay : Int) ≤ durMax := by
+    intro c qi e he
+    rw [hside] at he
+    refine pushAll_allE (p := fun e => -(delay : Int) ≤ e.time ∧ e.time + 2 * (delay : Int) ≤ durMax) evs _ ?_ ?_ c qi e he
+    · intro c qi e he; cases c <;> cases qi <;> cases he
+    · intro e he
+      simp only [evs, List.mem_map] at he
+      obtain ⟨l, hl, hle⟩ := he
+      subst hle
+      have := hB l hl
+      unfold nsOf; split <;> simp <;> omega
+  unfold initState at h
+  rw [bind_ok_iff] at h
+  obtain ⟨t0, ht0, h⟩ := h
+  rw [bind_ok_iff] at h
+  obtain ⟨⟨c, o1⟩, hc, h⟩ := h
+  rw [bind_ok_iff] at h
+  obtain ⟨⟨sv, o2⟩, hsv, h⟩ := h
+  rw [bind_ok_iff] at h
+  obtain ⟨net, hnew, h⟩ := h
+  simp only [pure, Except.pure, Except.ok.injEq] at h
+  subst h
+  simp only [] at hnm hsq ⊢
+  have hft : (parseTrace trace delay).firstTime = some t0 := by
+    unfold firstTimeE at ht0
+    split at ht0
+    · rename_i t hh; cases ht0; exact hh
+    · cases ht0
+  obtain ⟨hmin, cm, rm, hrm, hrt⟩ := firstTime_min hord hemp hft
+  have ht0lo : -(delay : Int) ≤ t0 := by rw [← hrt]; exact (hrange cm .base rm hrm).1
+  -- the bottleneck
+  have hnetq : NetQuiet delay lim net ∧ net.clientWindow = ⟨Gen.SIM_BOTTLENECK_WINDOW_NS, []⟩ ∧
+      net.serverWindow = ⟨Gen.SIM_BOTTLENECK_WINDOW_NS, []⟩ := by
+    unfold Bottleneck.new at hnew
+    simp only [hnet, hlim, Option.getD_none, Option.getD_some] at hnew
+    split at hnew
+    · cases hnew
+    · cases hnew
+      exact ⟨⟨rfl, rfl, rfl, rfl, rfl⟩, rfl, rfl⟩
+  obtain ⟨hq, hcw, hsw⟩ := hnetq
+  refine ⟨⟨hnm, hq, (parseTrace_spec trace delay).1, hord, ?_, by show t0 + (durMax : Int) - t0 ≤ durMax; omega, ?_, ?_⟩, by first | rfl | trivial, hft⟩
+  · intro c' qi e he
+    have h1 := hmin c' qi e he
+    have h2 := hrange c' qi e he
+    refine ⟨h1, ?_⟩
+    unfold reach; split <;> omega
+  · intro c'
+    unfold winOf
+    cases c' <;> simp [hcw, hsw, Asc]
+  · intro c' p
+    have : (winOf net c').stamps = [] := by unfold winOf; cases c' <;> simp [hcw, hsw]
+    rw [this, tcount_congr _ hs1 hs2, pushAll_tcount, tcount_empty, init_budget]
+    simp
 
 end
 end Mb.Sim
